@@ -84,10 +84,15 @@ IotaPart(d) ==
 \* the fixed-capacity variant with a capacity above the documented default (CAP = 4096 in the harness):
 \* samples of more than 1024 elements that fit the requested capacity
 BigCapPart(d) ==
-  \A n \in {1025, 2049, 4096} : \A ki \in 1..3 : \A qi \in {3, 16, 29} :
-     Emit([op |-> "quant.data", dfmt |-> "iota", entry |-> "max_n", ty |-> (IF n = 2049 THEN "f64" ELSE "i32"),
-           data |-> [iota |-> n, order |-> <<"shuffle", 4242 + n>>],
-           q |-> [n |-> qi, p |-> -5], conf |-> Conf(ki, 12), li |-> 12])
+  /\ \A n \in {1025, 2049, 4096} : \A ki \in 1..3 : \A qi \in {3, 16, 29} :
+       Emit([op |-> "quant.data", dfmt |-> "iota", entry |-> "max_n", ty |-> (IF n = 2049 THEN "f64" ELSE "i32"),
+             data |-> [iota |-> n, order |-> <<"shuffle", 4242 + n>>],
+             q |-> [n |-> qi, p |-> -5], conf |-> Conf(ki, 12), li |-> 12])
+  \* exactly at and next to the documented default capacity
+  /\ \A n \in {1023, 1024} : \A ki \in 1..3 : \A qi \in {3, 16, 29} : \A ent \in {"max_1024", "ci"} :
+       Emit([op |-> "quant.data", dfmt |-> "iota", entry |-> ent, ty |-> "i32",
+             data |-> [iota |-> n, order |-> <<"shuffle", 77 + n>>],
+             q |-> [n |-> qi, p |-> -5], conf |-> Conf(ki, 12), li |-> 12])
 
 \* populations far beyond 2^32 (index-only entry points; a * 2^p with p >= 5 so that q * n is an integer)
 BigPopPart(d) ==
